@@ -119,7 +119,8 @@ PROPS = {
     ),
 
     'C18': dict(
-        standin_ops=['xmlchar.is_char', 'xmlchar.is_name_start_char', 'xmlchar.is_name_char', 'xmlchar.is_pubid_char', 'xmlchar.is_enc_name', 'xmlchar.is_char_except', 'xmlchar.is_name_char_except', 'xmlchar.is_pubid_char_except'],
+        standin_ops=['xmlchar.is_char', 'xmlchar.is_name_start_char', 'xmlchar.is_name_char', 'xmlchar.is_pubid_char', 'xmlchar.is_enc_name', 'xmlchar.is_char_except', 'xmlchar.is_name_char_except', 'xmlchar.is_pubid_char_except', 'names.accepted'],
+        quick_grids=['names.accepted'],
         verus_units=['c18_xmlchar'],
         kani=['c18'],
         level='proof',
